@@ -88,3 +88,13 @@ func SubSeq(a, b uint16) int {
 
 	return 65536 - int(d)
 }
+
+// rtpTimestamp2Ms 将rtp时间戳按时钟频率转换成毫秒
+//
+// 注意，不能先把clockRate除以1000取整再做除法（比如44100会变成44），否则每一帧都会引入误差并且不断累积
+func rtpTimestamp2Ms(ts uint32, clockRate int) int64 {
+	if clockRate <= 0 {
+		return int64(ts)
+	}
+	return int64(uint64(ts) * 1000 / uint64(clockRate))
+}
